@@ -651,6 +651,9 @@ def input_class_of(cfg_row: dict, init: dict | None, final: dict | None, rng: ra
         n = 3          # keep the slow levels small; any width >= 2 takes the same branches
     if init.get('nomany') == 0:
         n = max(n, 3)
+    final = final or {}
+    if kind == 'circuit' and (final.get('cpl') == 0 or final.get('plid') == 0 or final.get('mqn') == 0):
+        n = max(n, 3)      # coupling / placement / routing-swap violations need a pair of uncoupled qudits
     extra = 0 if init.get('fullw', 1) else 2
     if cfg_row['model'] == 'wide':
         extra = 2
